@@ -10,14 +10,15 @@ MANIFEST = {
     'technique': 'quantity-kind (T/P) typing of every value stored into the thermal condition, plus a must-store rule for the specified quantities on every normal path '
             '(interprocedural through the single-component helpers); exhaustiveness of the VLE.__call__ dispatch; taint + must-pass rule for flow-derived per-call '
             'state in VLE._setup; symbolic shape check of the equilibrium-ratio update, the Rachford-Rice composition update and the fugacity functions '
-            '(iso-fugacity)',
+            '(iso-fugacity); lever-rule form check with call-site versioning',
     'text': 'Decides for every input the specification-plumbing clause only: on every normal return of each set_XY/_set_XY_chemical the specified T (resp. P) is '
             'what the thermal condition holds, every value stored into T is temperature-kinded and into P pressure-kinded, VLE.__call__ passes each specification '
             'to the parameter of the same kind and its dispatch over specification pairs is exhaustive; every field that VLE._setup computes from the amounts of '
             'this call (totals and compositions the V/H/S residuals divide by) is stored on every normal path, never only when the set of non-zero chemicals '
             'changed. The iso-fugacity clause is decided in shape: both fixed-point kernels update K <- pcf*Psat/P*gamma(x)/phi(y) with x, y = xy(x, K) and x <- '
-            'z/(1+V(K-1)); the Gibbs-minimisation path uses f_L = x*gamma(x)*pcf*Psat and f_V = y*P*phi(y). Residuals of V/H/S specifications, iso-fugacity, '
-            'Rachford-Rice agreement and scaling are numerical and not decided.',
+            'z/(1+V(K-1)); the Gibbs-minimisation path uses f_L = x*gamma(x)*pcf*Psat and f_V = y*P*phi(y). In the four single-component H/S helpers the vapour '
+            'fraction on the two-phase path is (X - X_bubble)/(X_dew - X_bubble), X_dew evaluated with the vapour row full and X_bubble with it empty. Residuals of '
+            'V/H/S specifications, iso-fugacity, Rachford-Rice agreement and scaling are numerical and not decided.',
 }
 
 VLEF = 'thermosteam/equilibrium/vle.py'
